@@ -245,7 +245,22 @@ fn judge_embedded(pos: &str, lit: &str, text: &str) -> Outcome {
     // inside parentheses a leading '-' is the unary operator, the rest is the literal
     let in_paren = pos.starts_with("paren");
     let (unary, lit_eff) = if in_paren && lit.starts_with('-') { (true, &lit[1..]) } else { (false, lit) };
-    let exp = if lit_eff.is_empty() { Exp::Reject("no-digit") } else { reference(lit_eff) };
+    let mut exp = if lit_eff.is_empty() { Exp::Reject("no-digit") } else { reference(lit_eff) };
+    // Inside parentheses doc/syntax.md makes `a-b` (no blanks) the expression a - b:
+    //   add-expr ::= mul-expr (sp* [+-] sp* mul-expr)*,  comma-decimal has no sign of its own.
+    // Such a string is therefore not ONE literal; its value is C08's business. What C07 still demands is that
+    // every `-`-separated piece is itself a well-formed literal: a malformed piece must make the text rejected.
+    if in_paren && lit_eff.contains('-') {
+        let pieces: Vec<&str> = lit_eff.split('-').collect();
+        let bad = pieces.iter().filter(|p| !p.is_empty()).find_map(|p| match reference(p) {
+            Exp::Reject(w) => Some(w),
+            _ => None,
+        });
+        exp = match bad {
+            Some(w) => Exp::Reject(w),
+            None => Exp::DontCare("expression-with-minus-operator"),
+        };
+    }
     let parsed: Result<Vec<plain::LedgerEntry<'_>>, String> = parse_ledger::<plain::Ident>(&ParseOptions::default(), text).map(|r| r.map(|(_, e)| e).map_err(|e| e.to_string())).collect();
     match (&exp, &parsed) {
         (Exp::DontCare(w), _) => Outcome::dont_care(format!("{}/dontcare/{}", pos, w)),
